@@ -54,8 +54,11 @@ def line_diffs(exp, got, path, out):
 
 def check_doc(ctx, doc, case):
     ctx.ev()
+    text = doc.text
+    if ctx.case_index % 4 == 0 and text.endswith('\n') and not text.endswith('\n\n'):
+        text = text[:-1]
     try:
-        d = mt.parse(doc.text, 'Html')
+        d = mt.parse(text if ctx.case_index % 8 else text.splitlines(keepends=True), 'Html')     # str or list of lines
     except Exception as e:  # noqa
         ctx.count('ambient', 'C01:' + mt.exc_site(e))
         return
